@@ -85,6 +85,9 @@ pub fn passwords() -> Vec<(&'static str, Vec<u8>)> {
         ("long1100-b", [vec![b'y'; 1099], vec![b'b']].concat()),
         ("long5000-a", [vec![b'z'; 4999], vec![b'a']].concat()),
         ("long5000-b", [vec![b'z'; 4999], vec![b'b']].concat()),
+        // longer than the 64-byte HMAC block and ending in NUL: HMAC hashes such keys first, so the trailing NUL matters
+        ("p69", vec![b'p'; 69]),
+        ("p69-nul", [vec![b'p'; 69], vec![0u8]].concat()),
     ]
 }
 
